@@ -57,7 +57,7 @@ class Sim:
 
         return vtime.run(main, world=self.world)
 
-    def send(self, blk, etype, **data):
+    def send(self, blk, etype, /, **data):
         """external event -> ('ret', value) | ('err', kind)"""
         try:
             return ('ret', edzed.ExtEvent(blk, etype).send(**data))
